@@ -176,6 +176,11 @@ class Server(utils.EventEmitter):
         if att.is_enhanced_bearer(bearer):
             bearer.write(pdu)
         else:
+            # A task-based handler or a notification may get here after the connection
+            # has closed; its handle may already designate another connection.
+            if self.device.connections.get(bearer.handle) is not bearer:
+                logger.debug('connection closed, dropping ATT PDU')
+                return
             self.device.send_l2cap_pdu(bearer.handle, att.ATT_CID, pdu)
 
     def next_handle(self) -> int:
